@@ -748,7 +748,11 @@ class Gen:
             t = f.tiles
             a = list(t.addresses)
             i = r.randrange(0, 4)
-            a[i] = a[i] + al * r.choice([1, 16, 4096, -1])
+            if self.u65 and r.random() < 0.4:
+                # same payload word, other high bits: only the parameter field of the cmd1 changes
+                a[i] = a[i] + (1 << 32) * r.choice([1, 2, 5]) if a[i] + (6 << 32) < self.limit - (1 << 36) else a[i] % (1 << 32)
+            else:
+                a[i] = a[i] + al * r.choice([1, 16, 4096, -1])
             a[i] = max(a[i], 0)
             f.tiles = api.NpuTileBox(t.height_0, t.height_1, t.width_0, a)
             return n
@@ -759,6 +763,9 @@ class Gen:
                 zp = 0 if bits > 16 else r.randrange(-(1 << (bits - 1)) if signed else 0, (1 << (bits - 1)) if signed else (1 << bits))
                 f.quantization = api.NpuQuantization(f.quantization.scale_f32, zp)
             f.region = r.choice([0, 1, 2])
+            return n
+        if k < 0.8 and isinstance(n, api.NpuElementWiseOperation) and getattr(n, "rescale", None) is not None:
+            n.rescale = (n.rescale[0], (n.rescale[1] + r.choice([1, 5])) % 64)     # same scale word, other shift
             return n
         if k < 0.85 and n.weights:
             n.weights = self.ranges(len(n.weights))
